@@ -20,7 +20,7 @@ from . import c14_cov
 from .c14_run import (BASE, UNKNOWN_BASE, VALS, run_history, run_monitor_scenario, model_timeout, make_val,  # noqa: F401
                       _classify_blob)
 from .c14_oracle import oracle as _oracle
-from .c14_gen import gen_case, torn_cases, enum_small, overlap_cases, monitor_scenarios
+from .c14_gen import gen_case, torn_cases, enum_small, overlap_cases, monitor_scenarios, sweep_overlap_cases
 
 PROPERTY = 'C14'
 LEAN_TARGETS = ['CpProofs.C14', 'CpProofs.C14History', 'CpProofs.C14Ext', 'CpProofs.C14Conc', 'drv_c14']
@@ -328,7 +328,8 @@ def _report(ctx, cases, results, compare=True, shrink=True):
             model[(i, k)] = o
     for idx, (case, res) in enumerate(zip(cases, results)):
         evs = res['events']
-        reqs = [e for e in evs if e['op'] == 'req'] + [x for e in evs if e['op'] == 'par' for x in (e['A'], e['B'])]
+        reqs = [e for e in evs if e['op'] == 'req'] + [x for e in evs if e['op'] == 'par' for x in (e['A'], e['B'])] \
+            + [e['A'] for e in evs if e['op'] == 'swpar']
         adopted = sum(1 for e in reqs if e['sid'] is not None and e['sid'] in e['presented'])
         nontrivial = len(reqs) >= 2 and adopted >= 1
         ctx.case(case, nontrivial=nontrivial, key=json.dumps([case['backend'], case['timeout'], case['ops'],
@@ -427,6 +428,9 @@ def _count(ctx, case, evs):
                 ctx.count('overlap:same_cookie')
             req(e['A'])
             req(e['B'])
+        elif e['op'] == 'swpar':
+            ctx.count('sweep_during_request:' + ('sweep waited for the session lock' if e['waited'] else 'sweep ran through'))
+            req(e['A'])
         elif e['op'] == 'sweep':
             ctx.count('sweep:removed=%d' % min(3, len(e['before']) - len(e['after'])) if e['ran'] else 'sweep:no_monitor')
         elif e['op'] == 'tear':
@@ -558,6 +562,7 @@ def run(ctx):
         cases = [gen_case(ctx.rng) for _ in range(ctx.budget(1000, 0))]
         check_cases(ctx, cases)
         check_cases(ctx, overlap_cases(ctx.rng, 90))
+        check_cases(ctx, sweep_overlap_cases(ctx.rng, 60))
         check_cases(ctx, torn_cases(ctx.rng, 1))
         small = list(enum_small(3))
         check_cases(ctx, small)
@@ -568,7 +573,7 @@ def run(ctx):
         for cases, results, h in common.parallel_map(_work, seeds):
             hits.extend(h)
             _report(ctx, cases, results)
-        tc = torn_cases(ctx.rng, 50) + overlap_cases(ctx.rng, 3000)
+        tc = torn_cases(ctx.rng, 50) + overlap_cases(ctx.rng, 3000) + sweep_overlap_cases(ctx.rng, 2000)
         chunks = [tc[i::32] for i in range(32)]
         for cases, results, h in common.parallel_map(_work_cases, [c for c in chunks if c]):
             hits.extend(h)
@@ -618,7 +623,8 @@ def search(ctx, around=None):
             break
     if not ctx.oracle_failures:
         rng = random.Random(ctx.seed)
-        check_cases(ctx, torn_cases(rng, 2) + overlap_cases(rng, 300), compare=False, shrink=False)
+        check_cases(ctx, torn_cases(rng, 2) + overlap_cases(rng, 300) + sweep_overlap_cases(rng, 200),
+                    compare=False, shrink=False)
     if not ctx.oracle_failures:
         check_independence(ctx, [gen_case(random.Random(ctx.seed + 1)) for _ in range(300)])
 
